@@ -9,6 +9,8 @@ CONSTANTS
   HandlerSeqs <- U_HSeqs
   UpProgs <- U_UpProgs
   CRProg <- U_CR
+  Forms = {"fresh", "once"}
+  Colls = {"k1", "k2"}
   QuitOn = TRUE
   QuitDeferred = TRUE
   DefCap = 4
